@@ -81,7 +81,12 @@ def cmd_run(names, tier):
             meta = json.load(open(os.path.join(dd, "meta.json")))
             d = make_scratch()
             try:
-                apply_patch(d, os.path.join(dd, "patch.diff"))
+                try:
+                    apply_patch(d, os.path.join(dd, "patch.diff"))
+                except RuntimeError as e:
+                    print(f"{name:<12} PATCH DOES NOT APPLY (needs a rebase): {str(e)[:120]}", flush=True)
+                    rows.append({"seeded": name, "property": meta["property"], "tier": tier, "checks": {}, "patch_failed": True})
+                    continue
                 row = {"seeded": name, "property": meta["property"], "tier": tier, "checks": {}}
                 for pid in meta["checks_expected"]:
                     if not os.path.exists(os.path.join(HERE, "vmon", "props", pid.lower() + ".py")):
